@@ -26,8 +26,10 @@ var registry = map[string]check{
 	"C15": {"model_checking", checks.C15},
 	"C09": {"model_checking", checks.C09},
 	"C10": {"model_checking", checks.C10},
+	"C12": {"fault_enumeration", checks.C12},
 	"C13": {"model_checking", checks.C13},
 	"C16": {"model_checking", checks.C16},
+	"C19": {"exploration", checks.C19},
 }
 
 func main() {
